@@ -43,6 +43,7 @@ class Oracle:
         if ctx.op["op"] != "new" and t < len(w.objs):
             ctx.store["recv"] = snap.Snapshot({"recv": w.objs[t]})
         ctx.store["args"] = snap.Snapshot({f"arg{i}": a for i, a in enumerate(w.args)})
+        ctx.store["envroots"] = snap.Snapshot(G.env_roots(ctx.env))
         ctx.store["pre_done"] = True
 
     def post(self, ctx, out):
@@ -56,6 +57,10 @@ class Oracle:
         d = snap.same_graph(ctx.store["args"])
         if d:
             v.append(explore.violation(PROP, ctx.sig("argument_changed", raised=out.family()),
+                                       {"diff": d[:3], "outcome": out.brief()}, ctx.case()))
+        d = snap.same_graph(ctx.store["envroots"])
+        if d:  # an object a preparer resolved its argument to is an argument, too
+            v.append(explore.violation(PROP, ctx.sig("resolved_argument_changed", raised=out.family()),
                                        {"diff": d[:3], "outcome": out.brief()}, ctx.case()))
         return v
 
@@ -98,6 +103,10 @@ def tasks_for(run, module, prop, quick_depth=2, thorough_depth=3, lf_quick=0, lf
                       "line_fault_depth": lf_quick if quick else lf_thorough,
                       "inits": 2 if quick else None,
                       "max_states": 1500 if quick else 6000})
+    if prop in ("C01", "C03", "C04", "C07"):
+        for rec in G.lookup_records():
+            tasks.append({"rec": rec, "depth": 2 if quick else 3, "module": module, "prop": prop, "tier": run.tier,
+                          "line_fault_depth": lf_quick if quick else lf_thorough, "inits": None, "max_states": 1500 if quick else 6000})
     return tasks
 
 
